@@ -17,6 +17,24 @@ CHECKS = {
              "Overlap.construct_array_contraction of /repo on every run. The 1e-8 accuracy clause is decided on the "
              "generated inputs only.",
         design="5 C01", technique="Coq proof (induction over the recursion) + model/implementation correspondence"),
+    "C10": dict(
+        text="Coq theorems about an exact Gallina model of generate_transformation in which every entry is a pair "
+             "(r, q) = r*sqrt(q), r, q rational: C10_all (for every l <= 10, by complete enumeration with vm_compute: "
+             "2l+1 rows, each a homogeneous degree-l polynomial with vanishing Laplacian once the normalisation of the "
+             "unit-normalised Cartesians is divided out; rows orthonormal for the overlap of unit-normalised Cartesians "
+             "of one shell; the row at the documented position of m equals A(x^2+y^2,z) Re/Im (x+iy)^m with the same A "
+             "for the c_m/s_m partners and A > 0 near the pole; left = right^T); for ALL l and all conventions, by "
+             "induction: any accepted Cartesian order / label order / sign list only selects and negates entries of "
+             "the default matrix (C10_convention_honoured), left = transpose of right (C10_left_is_transpose), whatever "
+             "is accepted is well-formed, i.e. malformed label sets and Cartesian lists are rejected "
+             "(C10_invalid_rejected), the four documented label forms are accepted. The model is run (extracted OCaml, "
+             "cross-checked in Coq by vm_compute on a seeded subset) against gbasis.spherical.generate_transformation "
+             "at relative 1e-12: every l <= 10, all Cartesian permutations l <= 2 (l = 3: sample / all 10! in the "
+             "thorough tier), all label order/sign patterns l <= 2, random conventions above, a malformed stream; the "
+             "overlap matrix of one spherical shell is checked to be the identity to 1e-8. Accuracy and the bound "
+             "l <= 10 of the harmonicity/orthonormality theorem are the property's own.",
+        design="5 C10", technique="Coq proof (finite domain by vm_compute + induction for conventions) + exact-model/"
+                                  "implementation correspondence"),
 }
 NOT_YET = {}
 
